@@ -1646,3 +1646,9 @@ M("C05-benign-explicit-else-branch", "C05", "src/cppparser/cppBison.yxx",
   "  $$ = $4;\n  CPPExpression::Result result = $2->evaluate();\n  if (result._type == CPPExpression::RT_error) {\n    yywarning(\"explicit() requires a constant expression\", @2);\n  } else if (result.as_boolean()) {\n    $$ = $4 | (int)CPPInstance::SC_explicit;\n  }",
   "  CPPExpression::Result result = $2->evaluate();\n  if (result._type == CPPExpression::RT_error) {\n    yywarning(\"explicit() requires a constant expression\", @2);\n    $$ = $4;\n  } else if (result.as_boolean()) {\n    $$ = $4 | (int)CPPInstance::SC_explicit;\n  } else {\n    $$ = $4;\n  }",
   benign=True)
+
+# ---------------------------------------------------------------- R04.2 ignoremember for data members (F-C04c)
+M("C04-ignoremember-skips-data-members", "C04", "src/interrogate/interrogateBuilder.cxx",
+  "      } else if (!in_ignoremember(inst->get_simple_name())) {\n        // Here's a data member declaration (and the user did not ask us to\n        // ignore members of this name).",
+  "      } else {\n        // Here's a data member declaration.",
+  expect="R04.2|define_struct_type|scan_element")
